@@ -363,6 +363,9 @@ func ruleBranchCheckedIsBranchStored(r *Run) {
 		r.undecided("datastore.repoManager.newVersion", "anchor not found")
 		return
 	}
+	if !newVersionIntact(r, f) {
+		return
+	}
 	isBranchLoad := func(v ssa.Value) bool {
 		u, ok := stripConv(v).(*ssa.UnOp)
 		if !ok || u.Op != token.MUL {
